@@ -33,6 +33,15 @@ CHECKS = {
     "C07": ("per key/epoch active-instance assertion at every entry + post-removal and quiescent survivor checks + retry obligations at settled states; gated stale-timer, delayed-removal and retry-inside-backoff templates",
             "Burst histories over 1-4 keys with slow-exiting, failing (1 ms backoff) and succeeding routines; templates make the timer-sensitive clauses deterministic.",
             "Retry obligations are not judged across context changes (a context change may drop a pending retry).", "4/C07"),
+    "C08": ("release-function monitor: each release func counts itself and, from inside the call (under the RefCount mutex), inspects the target container and the per-holder 'last told' table; quiescent and final release-count audits",
+            "Concurrent reference actors, invalidator, context changer (incl. cancelling the root context behind the container's back) and consumers against scripted resolver outcomes, both keep-unreferenced settings.",
+            "Excuse marks (about to release / invalidate / change context) are set before the call, so they can only excuse.", "4/C08"),
+    "C09": ("resolver active-counter assertion at every entry + quiescent delivery judgement (newest result in targets and in every held reference's last callback) + panic/blocked-call detection; gated hold-in-return-path template",
+            "Same workload with restart bursts while a resolver ignores cancellation; AddRef(nil) issued in every state.",
+            "A panic that leaves the mutex locked is reported through the watchdog path together with the recorded panic.", "4/C09"),
+    "C10": ("consumer oracles: holds of Wait/Resolve/ResolveWithReleased entered into the premature-release table; Access results judged against release stamps falling inside callback invocations; quiescent checks for un-cancelled invocations and missing re-invocation; equal-value replacement cases",
+            "1-3 Access callers and 1-3 Wait/Resolve callers with an invalidator, context changer and other references.",
+            "The WaitWithReleased 'ref' race is a data race first: it is decided by C13; a crash from it would be reported here as a worker crash.", "4/C10"),
     "C11": ("single-winner / by-result agreement monitor + porcupine single-assignment model + interval oracle for PromiseContainer replacements; spinning decided by counting Broadcast critical sections; quiescence check for blocked awaiters",
             "Concurrent setters/awaiters with every interruption source and sentinel error values; container awaiters are judged against the intervals in which each promise was current and resolved.",
             "Values are unique per SetResult; two recorded known findings (container ignores errCh / cancelCh while a promise is pending) are matched by exact signature.", "4/C11"),
